@@ -106,6 +106,7 @@ def duplicate(ck):
     FIELD = "QtLogger::DuplicateFilter::m_lastMessage"
 
     def is_msg(n):
+        n = deref_local(fn, n)
         return is_call(n, LM + "::message") and obj_is_param(skip_copies(n), fn, 0)
 
     eqs = []
@@ -137,7 +138,7 @@ def duplicate(ck):
     ck.ob("C16-O2", sitestr(fn, eq), exact and both_plain, "exact QString equality (%s)" % eq.get("sig") if (exact and both_plain) else "comparison %s on %s is not plain QString equality" % (eq.get("sig"), [skip_copies(a).get("type") for a in eq["args"]]),
           key="DuplicateFilter::filter|inexact-compare")
     neg = eq.get("op") == "!="
-    is_eq = lambda n: n.get("id") == eq["id"]
+    is_eq = value_pred(fn, eq)   # the comparison itself, or a flag local initialised from it
     writes = [(f, n, how) for f, n, how in field_writes(F, FIELD) if f.id == fn.id]
     wsites = set()
     for f, n, how in writes:
@@ -151,7 +152,13 @@ def duplicate(ck):
     for same in (True, False):
         keep = g.projector(atom_eq(is_eq, same != neg))
         live = g.live(keep)
-        rv = [(r, const_int(r.get("e"))) for r in returns(fn) if g.site_of(r) in live]
+        def retval(r):
+            v = const_int(r.get("e"))
+            if v is None:
+                ev_ = eval_cond(r.get("e"), atom_eq(is_eq, same != neg), fn)
+                v = None if ev_ is None else int(ev_)
+            return v
+        rv = [(r, retval(r)) for r in returns(fn) if g.site_of(r) in live]
         want = 0 if same else 1
         okr = bool(rv) and all(v == want for _, v in rv)
         ck.ob("C16-O2", sitestr(fn), okr, "%s text -> returns %s" % ("equal" if same else "different", bool(want)) if okr else
@@ -180,16 +187,16 @@ def regexp(ck):
     ck.touch(fn)
     rs = returns(fn)
     ck.require(len(rs) == 1, "RegExpFilter::filter has %d returns" % len(rs))
-    e = skip_copies(rs[0].get("e"))
+    e = skip_copies(deref_local(fn, rs[0].get("e")))
     ok = is_call(e, "QRegularExpressionMatch::hasMatch")
-    m = skip_copies(e.get("obj")) if ok else None
+    m = skip_copies(deref_local(fn, e.get("obj"))) if ok else None
     ok = ok and is_call(m, "QRegularExpression::match") and is_this_field(m.get("obj"), "QtLogger::RegExpFilter::m_regExp")
     if not ok:
         neg = e.get("k") == "unop" and e.get("op") == "!"
         ck.ob("C16-O3", sitestr(fn, rs[0]), False if neg else None, "RegExpFilter::filter returns %s" % describe(e), key="RegExpFilter::filter|return")
         return
     a = m.get("args", [])
-    subj = skip_copies(a[0]) if a else None
+    subj = skip_copies(deref_local(fn, a[0])) if a else None
     oksubj = is_call(subj, LM + "::message") and obj_is_param(subj, fn, 0)
     ck.ob("C16-O3", sitestr(fn, m), oksubj, "the expression is matched against message()" if oksubj else "the expression is matched against %s" % describe(subj), key="RegExpFilter::filter|subject")
     defaults = all(x.get("k") == "defaultarg" for x in a[1:])
@@ -202,6 +209,12 @@ def regexp(ck):
             continue
         ck.touch(ct)
         i = [x for x in ct.inits if x.get("member") == "QtLogger::RegExpFilter::m_regExp"]
+        dl = [x for x in ct.inits if x.get("delegating") and isinstance(x.get("e"), dict)]
+        if not i and dl:
+            # delegating constructor: RegExpFilter(const QString &s) : RegExpFilter(QRegularExpression(s)) {}
+            de = skip_copies(dl[0]["e"])
+            da = de.get("args", []) if de.get("k") == "construct" else []
+            i = [{"e": da[0]}] if len(da) == 1 else []
         e = skip_copies(i[0]["e"]) if i else None
         ok = e is not None and (is_ref_to(e, ct.params[0]["decl"]) or (e.get("k") == "construct" and e.get("class") == "QRegularExpression" and e.get("args") and is_ref_to(e["args"][0], ct.params[0]["decl"])
                                                                     and all(x.get("k") == "defaultarg" for x in e["args"][1:])))
